@@ -85,6 +85,9 @@ package ch
 //@   requires c != nil
 //@   modifies all(c.reader)
 //@   ensures err == nil ==> e != nil {exception-decoded}
+//@ loop 0 (list)
+//@   modifies all(c.reader)
+//@   invariant len(list) >= 0
 
 //@ -- the addendum may only be written when the NEGOTIATED revision has it
 //@ contract (c *Client) encodeAddendum() props(C13)
@@ -93,14 +96,27 @@ package ch
 //@   ensures [abstract] c.addendum
 
 //@ contract (c *Client) handshake$2() (err) props(C13)
-//@   requires *c != nil && *ctx != nil && *wgCtx != nil && wRI(c.writer) && !c.addendum
+//@   requires *c != nil && *ctx != nil && *wgCtx != nil && *cancel != nil && wRI(c.writer) && !c.addendum
 //@   modifies all(*c), all(*ctx), all(*wgCtx), all(*cancel)
 //@   ensures err == nil ==> c.protocolVersion == min(old(c.protocolVersion), c.server.Revision) {negotiated-min}
 //@   ensures err == nil ==> c.addendum == (c.protocolVersion >= 54458) {addendum-iff-negotiated-revision-has-it}
 //@   ensures err == nil ==> len(c.writer.vec) == 0 && len(c.writer.buf.Buf) == 0 {nothing-left-pending}
 
+//@ contract (o *Options) setDefaults() props(C13)
+//@   requires o != nil
+//@   modifies all(o)
+//@   ensures o.Dialer != nil && o.Logger != nil && o.tracer != nil && o.meter != nil {defaults-set}
+//@   ensures o.ProtocolVersion == ite(old(o.ProtocolVersion) == 0, proto.Version, old(o.ProtocolVersion)) {revision-default}
+
+//@ contract Connect(ctx, conn, opt) (c, err) props(C13)
+//@   requires ctx != nil && conn != nil
+//@   modifies all(ctx), all(conn)
+//@   ensures err == nil ==> c != nil {client-on-success}
+//@   ensures err != nil ==> c == nil {never-a-usable-client-on-failure}
+
 //@ -- a connection the library itself dialed is closed when connecting fails
 //@ contract Dial(ctx, opt) (c, err) props(C11,C13)
+//@   requires ctx != nil
 //@   modifies all(ctx), all(opt.Dialer)
 //@   ensures err == nil ==> c != nil {client-on-success}
 //@   ensures err != nil ==> c == nil {no-client-on-failure}
